@@ -335,6 +335,28 @@ func (s *Store) LinkSystem(reifiers bool) *ipld.LinkSystem {
 	return &ls
 }
 
+// LinkSystemCfg is LinkSystem with two further configuration axes a caller may
+// have: a KnownReifiers table that already holds other entries before the
+// UnixFS reifiers are added, and unixfsnode.Reify installed as NodeReifier (so
+// that every loaded block comes back already reified).
+func (s *Store) LinkSystemCfg(reifiers, prepopulated, nodeReifier bool) *ipld.LinkSystem {
+	ls := cidlink.DefaultLinkSystem()
+	ls.StorageReadOpener = s.OpenRead
+	ls.StorageWriteOpener = s.OpenWrite
+	if prepopulated {
+		ls.KnownReifiers = map[string]linking.NodeReifier{
+			"verif-other-adl": func(_ linking.LinkContext, n datamodel.Node, _ *linking.LinkSystem) (datamodel.Node, error) { return n, nil },
+		}
+	}
+	if reifiers {
+		unixfsnode.AddUnixFSReificationToLinkSystem(&ls)
+	}
+	if nodeReifier {
+		ls.NodeReifier = unixfsnode.Reify
+	}
+	return &ls
+}
+
 // Clone copies the blocks (not log, not faults) into a new store.
 func (s *Store) Clone() *Store {
 	s.mu.Lock()
